@@ -99,6 +99,10 @@ func GenInput(rt *rapid.T, xmpPacket func(*rapid.T) []byte) Input {
 	}
 	switch k {
 	case 3, 4:
+		// a bare block sometimes ends on the last byte of its last value (no trailing image data)
+		if n := len(payload) - f.Enc.Tail; f.Enc.Tail > 0 && n >= 64 && Chance(rt, "in.exactTiff", 0.3) {
+			payload = payload[:n]
+		}
 		return Input{Kind: "tiff", Data: payload, Sites: f.Enc.Sites, Exif: f}
 	case 5:
 		d := JPEGWith(rt, payload)
